@@ -677,6 +677,12 @@ func runHistory(p *SPlan, noUp bool, o *sim.Outcome, sigParts *[]string) []obsLi
 				o.Probe("listing_under_fault_discloses_nothing")
 			}
 			if st.Op == "sign" && res.err == nil && res.panicked == nil && !wasLocked {
+				// ... and no signature with a YSSHCA certificate of the underlying agent in no-upstream mode
+				if id := c.ident(st.Role, 0, now); id.IsCert && s.model.NoUp && id.YSSHCA && !pre.MemHas(st.Role) && !m.MemHas(st.Role) {
+					o.Fail("C09.sign_hidden", "signed_hidden_under_fault:"+c.certs[st.Role].KeyID, i, "%s: during this call the underlying agent failed a request or was changed by another client (%v); the call returned a signature made with the upstream YSSHCA certificate %s in no-upstream mode", tag, s.firedLog, st.Role)
+				}
+			}
+			if st.Op == "sign" && res.err == nil && res.panicked == nil && !wasLocked {
 				// whatever the underlying agent refused meanwhile: no signature with a certificate outside its validity
 				if id := c.ident(st.Role, 0, now); id.IsCert && shimmodel.Validity(id.VA, id.VB, now) == shimmodel.Invalid {
 					o.Fail("C07.sign_invalid", "signed_invalid_under_fault:"+c.certs[st.Role].Window, i, "%s: during this call the underlying agent failed a request (%v); the call returned a signature made with certificate %s (window %s), which is outside its validity at simulated time +%ds", tag, s.firedLog, st.Role, c.certs[st.Role].Window, now-epoch)
